@@ -3,6 +3,7 @@ ground-instantiated axioms, each paired with a concrete reference implementation
 that is independent of joserfc's code.  Octet strings and text are SMT strings.
 """
 from __future__ import annotations
+from .core import tid
 import base64 as _b64
 import json as _json
 from .core import (z3, PyVal, A, C, StringSort, IntSort, BoolSort, mk_bytes, mk_str, mk_int, simp, is_tag)
@@ -35,7 +36,7 @@ def b64u_len(n):
 def B64U_app(ctx, x):
     """B64U(x) with its axioms instantiated at x (alphabet, length)."""
     t = B64U(x)
-    key = ("B64U", t.get_id())
+    key = ("B64U", tid(t))
     if key not in ctx.ghost:
         ctx.ghost[key] = t
         ctx.ghost.setdefault("B64U_terms", []).append((x, t))
@@ -56,7 +57,7 @@ def rep(ctx, text, n):
     """text * n  (n symbolic) with its axioms; `text` is a one-character literal."""
     n = simp(n)
     t = Rep(text, n)
-    key = ("rep", t.get_id())
+    key = ("rep", tid(t))
     if key not in ctx.ghost:
         ctx.ghost[key] = True
         ctx.axiom(z3.Length(t) == z3.If(n > 0, n, 0) * z3.Length(text), "|text * n| = max(n, 0) * |text|")
@@ -107,7 +108,7 @@ def ref_MinBE(n: int) -> bytes:
 
 def pow2_facts(ctx, e):
     """Ground facts about Pow2 at exponent e (monotonicity is instantiated pairwise by mono())."""
-    key = ("pow2", e.get_id())
+    key = ("pow2", tid(e))
     if key in ctx.ghost:
         return
     ctx.ghost[key] = True
@@ -131,7 +132,7 @@ def pow256(ctx, k):
 def bit_length(interp, n):
     ctx = interp.ctx
     bl = BitLen(n)
-    key = ("bl", bl.get_id())
+    key = ("bl", tid(bl))
     if key not in ctx.ghost:
         ctx.ghost[key] = True
         pow2_facts(ctx, simp(bl))
@@ -211,7 +212,7 @@ def is_ascii(ctx, s):
 def utf8_encode(ctx, s):
     """UTF-8 octets of a text string, with axioms instantiated."""
     t = UTF8(s)
-    key = ("utf8", t.get_id())
+    key = ("utf8", tid(t))
     if key not in ctx.ghost:
         ctx.ghost[key] = True
         ctx.axiom(z3.Implies(is_ascii(ctx, s), t == s), "UTF8(s) = s for ASCII s")
@@ -223,7 +224,7 @@ def utf8_encode(ctx, s):
 
 def utf8_decode(ctx, b):
     t = UTF8Dec(b)
-    key = ("utf8dec", t.get_id())
+    key = ("utf8dec", tid(t))
     if key not in ctx.ghost:
         ctx.ghost[key] = True
         ctx.axiom(z3.Implies(is_ascii(ctx, b), z3.And(UTF8Ok(b), t == b)), "ASCII octets decode to themselves")
@@ -236,7 +237,7 @@ HasSurrogate = z3.Function("HasSurrogate", S_, B_)   # text contains a lone surr
 
 
 def surrogate_facts(ctx, s):
-    key = ("surr", s.get_id())
+    key = ("surr", tid(s))
     if key not in ctx.ghost:
         ctx.ghost[key] = True
         ctx.axiom(z3.Implies(is_ascii(ctx, s), z3.Not(HasSurrogate(s))), "ASCII text has no surrogates")
